@@ -56,6 +56,27 @@ static void on_signal(int sig)
 
 int ev_is(const Ev *ev, const char *name) { return strcmp(ev->name, name) == 0; }
 
+#ifdef WITH_ASAN
+void __asan_poison_memory_region(void const volatile *addr, size_t size);
+void __asan_unpoison_memory_region(void const volatile *addr, size_t size);
+#endif
+void *xblock0(void)
+{
+    /* a zero-length block: one octet, poisoned, so that any access is reported */
+    unsigned char *p = malloc(1);
+#ifdef WITH_ASAN
+    __asan_poison_memory_region(p, 1);
+#endif
+    return p;
+}
+void xfree0(void *p)
+{
+#ifdef WITH_ASAN
+    __asan_unpoison_memory_region(p, 1);
+#endif
+    free(p);
+}
+
 void *xblock(size_t n)
 {
     /* malloc(0) may return NULL or a unique pointer; ask for the exact size so
